@@ -19,7 +19,7 @@ func init() {
 		Title:     "Go-to-XGo style conversion preserves behaviour",
 		Technique: "cross-table agreement between the formatter's fmt→builtin rewrite table and the compiler's builtin bindings, inverse-rule check of the lower-casing of called names against the compiler's capitalisation rule, and scope push/pop typestate of the shadowing tracker",
 		Explanation: "Decides the table- and shape-level necessary conditions of 'the converted program means the same': (1) every pair {fmt.G → x} of x/format.printFuncs (with the formatter's println→echo substitution) names a builtin that cl/builtin.go binds to exactly fmt.G (the initBuiltinFns list under its first-letter title-casing rule, plus the explicit echo→Println), so a rewritten call still calls the same function; " +
-			"(2) startWithLowerCase changes the FIRST letter only (A–Z → a–z) — the exact inverse of the compiler's lookup rule, which upper-cases only the first letter of a lower-case member name; (3) the shadowing tracker always pushes a NEW child scope in enterBlock (every path assigns ctx.scope = NewScope(previous,…) and returns the previous one), leaveBlock restores exactly its argument, and every enterBlock call is paired with a deferred leaveBlock of its result. Block scopes (rule block-scope): every routine of x/format that walks a statement list (formatStmts) opens a scope of its own (enterBlock) on every path before the walk, so blocks, case clauses and communication clauses never share declarations with their siblings. Lambda arity (rule lambda-arity): every *ast.LambdaExpr the formatter builds is built under the guard len(Rhs) == the literal's result count, the requirement cl.checkLambdaFuncType enforces.",
+			"(2) startWithLowerCase changes the FIRST letter only (A–Z → a–z) — the exact inverse of the compiler's lookup rule, which upper-cases only the first letter of a lower-case member name; (3) the shadowing tracker always pushes a NEW child scope in enterBlock (every path assigns ctx.scope = NewScope(previous,…) and returns the previous one), leaveBlock restores exactly its argument, and every enterBlock call is paired with a deferred leaveBlock of its result. Block scopes (rule block-scope): every routine of x/format that walks a statement list (formatStmts) opens a scope of its own (enterBlock) on every path before the walk, so blocks, case clauses and communication clauses never share declarations with their siblings. Walk coverage (rule format-walk-field): every child node of every node kind with a case in formatStmt/formatExpr/formatType is read by that case or by the routine the node is handed to — the converter decides from the calls it visits whether an import is still used. Header statements (rule header-call-style): the init/post statement of an if/for/switch header never reaches formatStmt directly, whose command-style rewriting cannot be followed by `;` or `{`. Lambda arity (rule lambda-arity): every *ast.LambdaExpr the formatter builds is built under the guard len(Rhs) == the literal's result count, the requirement cl.checkLambdaFuncType enforces.",
 		NotCovered: "lambda conversion beyond the arity guard, command-style calls, import removal, and the precision of the shadowing test itself.",
 		Run:        runC25,
 		Controls: []Control{
@@ -30,6 +30,8 @@ func init() {
 			{Name: "lowercase-two-letters", File: g, Old: "\t\tv.Name = string(c+('a'-'A')) + v.Name[1:]", New: "\t\tv.Name = string(c+('a'-'A')) + string(v.Name[1]|0x20) + v.Name[2:]", Expect: "lowercase-inverse/startWithLowerCase"},
 			{Name: "lambda-forwarding-return", File: f, Old: "ok && len(stmt.Results) == nres {", New: "ok && (len(stmt.Results) == nres || len(stmt.Results) == 1) {", Expect: "lambda-arity/funcLitToLambdaExpr"},
 			{Name: "clause-body-in-switch-scope", File: "x/format/stmt_expr_or_type.go", Old: "\t\tformatExprs(ctx, v.List)\n\t\tformatClause(ctx, nil, v.Body)\n", New: "\t\tformatExprs(ctx, v.List)\n\t\tformatStmts(ctx, v.Body)\n", Expect: "block-scope/formatStmt"},
+			{Name: "for-post-not-walked", File: "x/format/stmt_expr_or_type.go", Old: "\tformatSimpleStmt(ctx, v.Post)\n", New: "", Expect: "format-walk-field/ForStmt.Post"},
+			{Name: "if-init-in-command-style", File: "x/format/stmt_expr_or_type.go", Old: "\tformatSimpleStmt(ctx, v.Init)\n\tformatExpr(ctx, v.Cond, &v.Cond)\n\tformatBlockStmt(ctx, v.Body)\n\tformatStmt(ctx, v.Else)", New: "\tformatStmt(ctx, v.Init)\n\tformatExpr(ctx, v.Cond, &v.Cond)\n\tformatBlockStmt(ctx, v.Body)\n\tformatStmt(ctx, v.Else)", Expect: "header-call-style/formatIfStmt.Init"},
 			{Name: "scope-reused", File: g, Old: "\told := ctx.scope\n\tctx.scope = types.NewScope(old, token.NoPos, token.NoPos, \"\")\n\treturn old", New: "\told := ctx.scope\n\tif old.Parent() != nil && old.Len() == 0 {\n\t\treturn old\n\t}\n\tctx.scope = types.NewScope(old, token.NoPos, token.NoPos, \"\")\n\treturn old", Expect: "scope-discipline/enterBlock"},
 			{Name: "leave-not-deferred", File: "x/format/stmt_expr_or_type.go", Old: "\told := ctx.enterBlock()\n\tdefer ctx.leaveBlock(old)\n\tif stmt.Init != nil {", New: "\tctx.enterBlock()\n\tif stmt.Init != nil {", Expect: "scope-discipline/pairing"},
 		},
@@ -37,13 +39,87 @@ func init() {
 }
 
 func runC25(c *core.Check) {
-	prog := c.Load("./x/format", "./cl")
+	prog := c.Load("./x/format", "./cl", "./parser", "./ast")
 	fpk, cpk := prog.Pkg("./x/format"), prog.Pkg("./cl")
 	if fpk == nil || cpk == nil {
 		return
 	}
 	finfo, cinfo := fpk.TypesInfo, cpk.TypesInfo
 	c25LambdaArity(c, fpk, cpk)
+	// header statements: the init/post statement of an if/for/switch header never reaches formatStmt directly — that
+	// route turns a call into command style (`for echo "x"; …`), which cannot be followed by `;` or `{`
+	{
+		fstmt := fpk.Types.Scope().Lookup("formatStmt")
+		nHdr := 0
+		for _, fd := range core.AllFuncDecls(fpk) {
+			if fd.Body == nil {
+				continue
+			}
+			ast.Inspect(fd.Body, func(n ast.Node) bool {
+				call, ok := n.(*ast.CallExpr)
+				if !ok || len(call.Args) != 2 {
+					return true
+				}
+				sel, ok := ast.Unparen(call.Args[1]).(*ast.SelectorExpr)
+				if !ok || (sel.Sel.Name != "Init" && sel.Sel.Name != "Post") {
+					return true
+				}
+				if s := finfo.Selections[sel]; s == nil || s.Kind() != types.FieldVal {
+					return true
+				}
+				// Go's header statements only: ForPhrase.Init is XGo syntax that Go input never contains
+				if nt := namedOf(derefType(finfo.TypeOf(sel.X))); nt == nil || !isOneOf(nt.Obj().Name(), []string{"IfStmt", "ForStmt", "SwitchStmt", "TypeSwitchStmt"}) {
+					return true
+				}
+				if fn, ok := calleeObj(finfo, call).(*types.Func); ok && fn.Pkg() == fpk.Types {
+					nHdr++
+					key := core.FuncName(fd) + "." + sel.Sel.Name
+					c.Decide(calleeObj(finfo, call) != fstmt, "header-call-style", key, call.Pos(), "handled by "+fn.Name(), core.FuncName(fd)+" hands the header's "+sel.Sel.Name+" statement to formatStmt: a call there is rewritten in command style (`if echo \"x\"; cond {`), which does not parse")
+				}
+				return true
+			})
+		}
+		c.Floor("header-call-style", 5)
+		c.Floor("format-walk-field", 60)
+		if ss := core.FindFuncDecl(fpk, "formatSimpleStmt"); ss != nil {
+			usesCmd := false
+			ast.Inspect(ss.Body, func(n ast.Node) bool {
+				if call, ok := n.(*ast.CallExpr); ok {
+					if fn, ok := calleeObj(finfo, call).(*types.Func); ok && (fn.Name() == "commandStyleFirst" || fn.Name() == "formatExprStmt") {
+						usesCmd = true
+					}
+				}
+				return true
+			})
+			c.Decide(!usesCmd, "header-call-style", "formatSimpleStmt", ss.Pos(), "formats the call without the command-style conversion", "formatSimpleStmt applies the command-style conversion to a header statement")
+		}
+	}
+	// walk coverage: the formatter decides whether an import is still used from the calls it visits; a child it does not
+	// visit keeps its fmt.Println while `import "fmt"` is removed. Every child node of every node kind with a case in
+	// formatStmt / formatExpr / formatType is read by the case (or by the routine the node is handed to).
+	if xpk, apk := prog.Pkg("./parser"), prog.Pkg("./ast"); xpk != nil && apk != nil {
+		nodeI := ifaceOf(apk.Types.Scope().Lookup("Node").Type())
+		for _, d := range []string{"formatStmt", "formatExpr", "formatType"} {
+			fd := prog.FuncDecl("./x/format", d)
+			if fd == nil || nodeI == nil {
+				continue
+			}
+			ts := typeSwitchOn(fd.Body, finfo, paramObj(fd, finfo, 1))
+			if ts == nil {
+				c.Undecided("format-walk-field", d, fd.Pos(), "no type switch over the node parameter")
+				continue
+			}
+			for _, s := range ts.Body.List {
+				cc := s.(*ast.CaseClause)
+				if len(cc.List) != 1 || finfo.Implicits[cc] == nil {
+					continue
+				}
+				if nt := namedOf(finfo.TypeOf(cc.List[0])); nt != nil && nt.Obj().Pkg() == apk.Types {
+					checkFieldsRead(c, fpk, xpk, nodeI, nt, cc, finfo.Implicits[cc], fieldReadRule{prefix: "format-walk", verb: "walks", omitted: c25WalkOmitted, derived: map[string]string{}, childrenOnly: true})
+				}
+			}
+		}
+	}
 	c.Floor("lambda-arity", 2)
 
 	// ---------- (1) tables
@@ -358,3 +434,18 @@ func runC25(c *core.Check) {
 
 // c25WalksInCallerScope: routines that walk a statement list without a scope of their own, reviewed.
 var c25WalksInCallerScope = map[string]string{}
+
+// c25WalkOmitted: children the style converter deliberately does not visit, by field name.
+var c25WalkOmitted = map[string]string{
+	"Doc":     "comments contain no calls",
+	"Comment": "comments contain no calls",
+	"Label":   "a label is a bare identifier: it contains no calls and shadows nothing",
+	"Lhs":     "lambda parameters are bare identifiers; Go input has no lambdas (they are produced by this pass from function literals whose parameters were recorded through formatFuncType)",
+}
+
+func derefType(t types.Type) types.Type {
+	if pt, ok := t.(*types.Pointer); ok {
+		return pt.Elem()
+	}
+	return t
+}
